@@ -148,6 +148,136 @@ func genDbPerm() {
 		die("NewInterface: `if opts == nil { opts = &Options{} }` not found")
 	}
 
+	// The privileges of an interface are the Local / Internal the caller put into its Options: no function of
+	// package database (all non-test files) may write them, replace the options of an Interface, or build Options
+	// of its own (besides NewInterface's `&Options{}` for nil). Every such write is listed with the function it
+	// stands in, the conditions around it and its right-hand side; the theorem demands the list to be empty.
+	// Fails closed on what it cannot list (the options pointer handed to another function, aliased, or
+	// dereferenced on the left of an assignment).
+	{
+		ents, err := os.ReadDir(filepath.Join(repo, "database"))
+		if err != nil {
+			die("database: %v", err)
+		}
+		var writes []string
+		privField := func(e ast.Expr) string {
+			if s, ok := e.(*ast.SelectorExpr); ok && (s.Sel.Name == "Local" || s.Sel.Name == "Internal") {
+				return s.Sel.Name
+			}
+			return ""
+		}
+		for _, ent := range ents {
+			name := ent.Name()
+			if ent.IsDir() || !strings.HasSuffix(name, ".go") || strings.HasSuffix(name, "_test.go") {
+				continue
+			}
+			fs, file := parseFile("database/" + name)
+			for _, d := range file.Decls {
+				fd, ok := d.(*ast.FuncDecl)
+				if !ok || fd.Body == nil {
+					continue
+				}
+				fn := fd.Name.Name
+				var conds []string
+				var walk func(n ast.Node)
+				record := func(field, rhs string) {
+					c := strings.Join(conds, " && ")
+					if c == "" {
+						c = "true"
+					}
+					writes = append(writes, fmt.Sprintf("(%q, %q, %q, %q)", fn, field, c, rhs))
+				}
+				walk = func(n ast.Node) {
+					switch x := n.(type) {
+					case nil:
+						return
+					case *ast.IfStmt:
+						walk(x.Init)
+						conds = append(conds, exprString(fs, x.Cond))
+						walk(x.Body)
+						conds[len(conds)-1] = "!(" + conds[len(conds)-1] + ")"
+						walk(x.Else)
+						conds = conds[:len(conds)-1]
+						return
+					case *ast.AssignStmt:
+						for k, l := range x.Lhs {
+							rhs := "?"
+							if len(x.Rhs) == len(x.Lhs) {
+								rhs = exprString(fs, x.Rhs[k])
+							}
+							if fld := privField(l); fld != "" {
+								record(fld, rhs)
+							}
+							if s, ok := l.(*ast.SelectorExpr); ok && s.Sel.Name == "options" {
+								record("options", rhs)
+							}
+							if st, ok := l.(*ast.StarExpr); ok {
+								if id, ok := st.X.(*ast.Ident); ok && fn == "NewInterface" && id.Name == "opts" {
+									die("NewInterface: assignment through *opts")
+								}
+							}
+						}
+						if fn == "NewInterface" {
+							for _, r := range x.Rhs {
+								if id, ok := r.(*ast.Ident); ok && id.Name == "opts" {
+									die("NewInterface: the options pointer is aliased (%s)", exprString(fs, x.Lhs[0]))
+								}
+							}
+						}
+					case *ast.IncDecStmt:
+						if fld := privField(x.X); fld != "" {
+							record(fld, x.Tok.String())
+						}
+					case *ast.UnaryExpr:
+						if x.Op == token.AND {
+							if fld := privField(x.X); fld != "" {
+								record(fld, "address taken")
+							}
+						}
+					case *ast.CallExpr:
+						if fn == "NewInterface" {
+							for _, a := range x.Args {
+								if id, ok := a.(*ast.Ident); ok && id.Name == "opts" {
+									die("NewInterface: the options pointer is handed to %s", exprString(fs, x.Fun))
+								}
+							}
+						}
+					case *ast.CompositeLit:
+						if id, ok := x.Type.(*ast.Ident); ok && id.Name == "Options" {
+							if !(fn == "NewInterface" && len(x.Elts) == 0 && len(conds) == 1 && conds[0] == "opts == nil") {
+								record("Options literal", exprString(fs, x))
+							}
+						}
+						if id, ok := x.Type.(*ast.Ident); ok && id.Name == "Interface" {
+							for _, el := range x.Elts {
+								kv, ok := el.(*ast.KeyValueExpr)
+								if !ok {
+									die("%s: unkeyed Interface literal", fn)
+								}
+								if exprString(fs, kv.Key) == "options" && !(fn == "NewInterface" && exprString(fs, kv.Value) == "opts") {
+									record("options", exprString(fs, kv.Value))
+								}
+							}
+						}
+					}
+					// children
+					ast.Inspect(n, func(c ast.Node) bool {
+						if c == n || c == nil {
+							return c == n
+						}
+						walk(c)
+						return false
+					})
+				}
+				walk(fd.Body)
+			}
+		}
+		sb.WriteString("/-- Every place in package database (all non-test files) that writes `Local` / `Internal` of an `Options` value,\n")
+		sb.WriteString("    replaces the `options` of an `Interface` or builds `Options` of its own — (function, field, conditions around the\n")
+		sb.WriteString("    write, right-hand side). `NewInterface`'s `opts = &Options{}` under `opts == nil` and `options: opts` are not writes. -/\n")
+		fmt.Fprintf(&sb, "def optionPrivilegeWrites : List (String × String × String × String) := [%s]\n\n", strings.Join(writes, ", "))
+	}
+
 	// every constructor of a DatabaseAPI in package api (all non-test files, verif-tagged ones included): a
 	// composite literal of type DatabaseAPI whose `db` field is a database.NewInterface(...) call with literal
 	// options. Fails closed on: a NewInterface call anywhere else in the package, a DatabaseAPI literal without
